@@ -301,105 +301,118 @@ pub fn style_name(style: u8) -> &'static str {
     }
 }
 
-/// `it` is the library's own iterator type (no adaptor in between: `Map` forwards `fold` but not
-/// `for_each`, `count`, `last`, `nth` to what it wraps); `conv` widens each match.
-pub fn consume<T, I: Iterator<Item = T>>(mut it: I, conv: impl Fn(T) -> Mt, pre: usize, style: u8) -> Consumed {
-    let mut c = Consumed { pre: vec![], rest: vec![], n: 0 };
-    for _ in 0..pre {
-        match it.next() {
-            Some(m) => c.pre.push(conv(m)),
-            None => return c,
-        }
-    }
-    match style % N_STYLES {
-        0 => {
-            c.rest = it.fold(vec![], |mut v, m| {
-                v.push(conv(m));
-                v
-            });
-            c.n = c.rest.len();
-        }
-        1 => c.n = it.count(),
-        2 => {
-            c.rest = it.last().map(&conv).into_iter().collect();
-        }
-        3 => {
-            let mut v = vec![];
-            it.for_each(|m| v.push(conv(m)));
-            c.n = v.len();
-            c.rest = v;
-        }
-        4 => {
-            while let Some(m) = it.nth(1) {
-                c.rest.push(conv(m));
+/// `$it` is the library's own iterator type (no adaptor in between: `Map` forwards `fold` but
+/// not `for_each`, `count`, `last`, `nth` to what it wraps) and this is a macro, not a generic
+/// function: the methods are called with plain method-call syntax on the concrete type, the way
+/// user code does, so that an inherent method shadowing a trait method is reached as well.
+/// `$conv` widens each match.
+macro_rules! consume {
+    ($it:expr, $conv:expr, $pre:expr, $style:expr) => {{
+        #[allow(unused_mut)]
+        let mut it = $it;
+        let conv = $conv;
+        let pre: usize = $pre;
+        let style: u8 = $style;
+        let mut c = $crate::pma::Consumed { pre: vec![], rest: vec![], n: 0 };
+        'done: {
+            for _ in 0..pre {
+                match it.next() {
+                    Some(m) => c.pre.push(conv(m)),
+                    None => break 'done,
+                }
+            }
+            match style % $crate::pma::N_STYLES {
+                0 => {
+                    c.rest = it.fold(vec![], |mut v, m| {
+                        v.push(conv(m));
+                        v
+                    });
+                    c.n = c.rest.len();
+                }
+                1 => c.n = it.count(),
+                2 => {
+                    c.rest = it.last().map(&conv).into_iter().collect();
+                }
+                3 => {
+                    let mut v = vec![];
+                    it.for_each(|m| v.push(conv(m)));
+                    c.n = v.len();
+                    c.rest = v;
+                }
+                4 => {
+                    while let Some(m) = it.nth(1) {
+                        c.rest.push(conv(m));
+                    }
+                }
+                5 => {
+                    c.rest = it.skip(1).fold(vec![], |mut v, m| {
+                        v.push(conv(m));
+                        v
+                    });
+                }
+                6 => {
+                    c.rest = it.by_ref().take(2).fold(vec![], |mut v, m| {
+                        v.push(conv(m));
+                        v
+                    });
+                    for m in it {
+                        c.rest.push(conv(m));
+                        c.n += 1;
+                    }
+                }
+                7 => {
+                    let _ = it.size_hint();
+                    c.rest = it.fold(vec![], |mut v, m| {
+                        v.push(conv(m));
+                        v
+                    });
+                }
+                8 => {
+                    let mut v = vec![];
+                    it.step_by(2).for_each(|m| v.push(conv(m)));
+                    c.rest = v;
+                }
+                9 => {
+                    // the search iterator changes its address between two calls
+                    let mut moved = Box::new(it);
+                    $crate::pma::scribble_stack();
+                    while let Some(m) = moved.next() {
+                        c.rest.push(conv(m));
+                    }
+                }
+                10 => {
+                    // collections that are filled through for_each / fold rather than next()
+                    let l: std::collections::LinkedList<_> = it.collect();
+                    c.rest = l.into_iter().map(&conv).collect();
+                }
+                11 => {
+                    let mut d: std::collections::VecDeque<$crate::pma::Mt> = Default::default();
+                    d.extend(it.map(&conv));
+                    c.rest = d.into_iter().collect();
+                }
+                12 => {
+                    // max_by_key / min_by_key go through fold / reduce
+                    c.rest = it.max_by_key(|_| 0u8).map(&conv).into_iter().collect();
+                }
+                13 => {
+                    c.n = it.by_ref().filter(|_| true).count();
+                    c.rest = it.map(&conv).collect();
+                }
+                14 => {
+                    let (x, y): (Vec<_>, Vec<_>) = it.partition(|_| true);
+                    c.rest = x.into_iter().chain(y).map(&conv).collect();
+                }
+                _ => {
+                    let mut p = it.peekable();
+                    let _ = p.peek();
+                    c.rest = p.map(&conv).collect();
+                }
             }
         }
-        5 => {
-            c.rest = it.skip(1).fold(vec![], |mut v, m| {
-                v.push(conv(m));
-                v
-            });
-        }
-        6 => {
-            c.rest = it.by_ref().take(2).fold(vec![], |mut v, m| {
-                v.push(conv(m));
-                v
-            });
-            for m in it {
-                c.rest.push(conv(m));
-                c.n += 1;
-            }
-        }
-        7 => {
-            let _ = it.size_hint();
-            c.rest = it.fold(vec![], |mut v, m| {
-                v.push(conv(m));
-                v
-            });
-        }
-        8 => {
-            let mut v = vec![];
-            it.step_by(2).for_each(|m| v.push(conv(m)));
-            c.rest = v;
-        }
-        9 => {
-            // the search iterator changes its address between two calls
-            let mut moved = Box::new(it);
-            scribble_stack();
-            while let Some(m) = moved.next() {
-                c.rest.push(conv(m));
-            }
-        }
-        10 => {
-            // collections that are filled through for_each / fold rather than next()
-            let l: std::collections::LinkedList<T> = it.collect();
-            c.rest = l.into_iter().map(&conv).collect();
-        }
-        11 => {
-            let mut d: std::collections::VecDeque<Mt> = Default::default();
-            d.extend(it.map(&conv));
-            c.rest = d.into_iter().collect();
-        }
-        12 => {
-            // max_by_key / min_by_key go through fold / reduce
-            c.rest = it.max_by_key(|_| 0u8).map(&conv).into_iter().collect();
-        }
-        13 => {
-            c.n = it.by_ref().filter(|_| true).count();
-            c.rest = it.map(&conv).collect();
-        }
-        14 => {
-            let (x, y): (Vec<T>, Vec<T>) = it.partition(|_| true);
-            c.rest = x.into_iter().chain(y).map(&conv).collect();
-        }
-        _ => {
-            let mut p = it.peekable();
-            let _ = p.peek();
-            c.rest = p.map(&conv).collect();
-        }
-    }
-    c
+        c
+    }};
 }
+pub(crate) use consume;
 
 pub type ByteSrc<'a> = Box<dyn Iterator<Item = u8> + 'a>;
 pub type MatchIter<'a> = Box<dyn Iterator<Item = Mt> + 'a>;
@@ -470,25 +483,25 @@ impl<V: SimVal> DynPma for Bw<V> {
     fn consume_slice(&self, m: Method, hay: Hay, inline: bool, pre: usize, style: u8) -> Consumed {
         if let (true, Some(hay)) = (inline, InlineHay::new(&hay.bytes)) {
             return match m {
-                Method::Find => consume(self.0.find_iter(hay), mt, pre, style),
-                Method::Overlapping => consume(self.0.find_overlapping_iter(hay), mt, pre, style),
-                Method::NoSuffix => consume(self.0.find_overlapping_no_suffix_iter(hay), mt, pre, style),
-                Method::Leftmost => consume(self.0.leftmost_find_iter(hay), mt, pre, style),
+                Method::Find => consume!(self.0.find_iter(hay), mt, pre, style),
+                Method::Overlapping => consume!(self.0.find_overlapping_iter(hay), mt, pre, style),
+                Method::NoSuffix => consume!(self.0.find_overlapping_no_suffix_iter(hay), mt, pre, style),
+                Method::Leftmost => consume!(self.0.leftmost_find_iter(hay), mt, pre, style),
             };
         }
         match m {
-            Method::Find => consume(self.0.find_iter(hay), mt, pre, style),
-            Method::Overlapping => consume(self.0.find_overlapping_iter(hay), mt, pre, style),
-            Method::NoSuffix => consume(self.0.find_overlapping_no_suffix_iter(hay), mt, pre, style),
-            Method::Leftmost => consume(self.0.leftmost_find_iter(hay), mt, pre, style),
+            Method::Find => consume!(self.0.find_iter(hay), mt, pre, style),
+            Method::Overlapping => consume!(self.0.find_overlapping_iter(hay), mt, pre, style),
+            Method::NoSuffix => consume!(self.0.find_overlapping_no_suffix_iter(hay), mt, pre, style),
+            Method::Leftmost => consume!(self.0.leftmost_find_iter(hay), mt, pre, style),
         }
     }
     fn consume_iter(&self, m: Method, src: ByteSrc<'_>, pre: usize, style: u8) -> Consumed {
         {
             match m {
-                Method::Find => consume(self.0.find_iter_from_iter(src), mt, pre, style),
-                Method::Overlapping => consume(self.0.find_overlapping_iter_from_iter(src), mt, pre, style),
-                Method::NoSuffix => consume(self.0.find_overlapping_no_suffix_iter_from_iter(src), mt, pre, style),
+                Method::Find => consume!(self.0.find_iter_from_iter(src), mt, pre, style),
+                Method::Overlapping => consume!(self.0.find_overlapping_iter_from_iter(src), mt, pre, style),
+                Method::NoSuffix => consume!(self.0.find_overlapping_no_suffix_iter_from_iter(src), mt, pre, style),
                 Method::Leftmost => panic!("harness: no byte-iterator entry point for leftmost"),
             }
         }
@@ -564,25 +577,25 @@ impl<V: SimVal> DynPma for Cw<V> {
         assert!(std::str::from_utf8(AsRef::<[u8]>::as_ref(&hay)).is_ok(), "harness: char-wise haystack must be UTF-8");
         if let (true, Some(hay)) = (inline, InlineHay::new(&hay.bytes)) {
             return match m {
-                Method::Find => consume(self.0.find_iter(hay), mt, pre, style),
-                Method::Overlapping => consume(self.0.find_overlapping_iter(hay), mt, pre, style),
-                Method::NoSuffix => consume(self.0.find_overlapping_no_suffix_iter(hay), mt, pre, style),
-                Method::Leftmost => consume(self.0.leftmost_find_iter(hay), mt, pre, style),
+                Method::Find => consume!(self.0.find_iter(hay), mt, pre, style),
+                Method::Overlapping => consume!(self.0.find_overlapping_iter(hay), mt, pre, style),
+                Method::NoSuffix => consume!(self.0.find_overlapping_no_suffix_iter(hay), mt, pre, style),
+                Method::Leftmost => consume!(self.0.leftmost_find_iter(hay), mt, pre, style),
             };
         }
         match m {
-            Method::Find => consume(self.0.find_iter(hay), mt, pre, style),
-            Method::Overlapping => consume(self.0.find_overlapping_iter(hay), mt, pre, style),
-            Method::NoSuffix => consume(self.0.find_overlapping_no_suffix_iter(hay), mt, pre, style),
-            Method::Leftmost => consume(self.0.leftmost_find_iter(hay), mt, pre, style),
+            Method::Find => consume!(self.0.find_iter(hay), mt, pre, style),
+            Method::Overlapping => consume!(self.0.find_overlapping_iter(hay), mt, pre, style),
+            Method::NoSuffix => consume!(self.0.find_overlapping_no_suffix_iter(hay), mt, pre, style),
+            Method::Leftmost => consume!(self.0.leftmost_find_iter(hay), mt, pre, style),
         }
     }
     fn consume_iter(&self, m: Method, src: ByteSrc<'_>, pre: usize, style: u8) -> Consumed {
         unsafe {
             match m {
-                Method::Find => consume(self.0.find_iter_from_iter(src), mt, pre, style),
-                Method::Overlapping => consume(self.0.find_overlapping_iter_from_iter(src), mt, pre, style),
-                Method::NoSuffix => consume(self.0.find_overlapping_no_suffix_iter_from_iter(src), mt, pre, style),
+                Method::Find => consume!(self.0.find_iter_from_iter(src), mt, pre, style),
+                Method::Overlapping => consume!(self.0.find_overlapping_iter_from_iter(src), mt, pre, style),
+                Method::NoSuffix => consume!(self.0.find_overlapping_no_suffix_iter_from_iter(src), mt, pre, style),
                 Method::Leftmost => panic!("harness: no byte-iterator entry point for leftmost"),
             }
         }
